@@ -6,6 +6,13 @@ genie   spec/Genie.tla: pwr/genie's analyzeFile transcribed (compositions of big
         that never touch the short last block of an old file (MC_Genie_quick) and FAILS for those that do
         (MC_Genie_short: expected counterexample). TV: the real Genie on real patches of generated build pairs
         (Trace_Genie): contract (OBSERVATION) and exact agreement with the transcription (drift).
+
+diffleak spec/DiffPipelineFault.tla: the per-file pipeline of WritePatch (DiffPipeline.tla, C15) with a failing task.
+        MC: the caller always gets an answer, nil only after all three tasks returned with the whole stream consumed,
+        an upstream read error reaches every task (MC_DiffPipelineFault_ok); tasks CAN be left behind for good when a
+        consumer fails before the reader task is through (MC_DiffPipelineFault_leak: expected counterexample).
+        TV: the real WritePatch with injected faults (Trace_DiffLeak): goroutines left behind (OBSERVATION), the
+        model's invariants on the real runs (anything else: ODD).
 """
 import os
 import shutil
@@ -44,6 +51,34 @@ def run(tier):
             c = vlib.get_line(tp, drift[0][0])
             print("NOTE: spec drift: Genie.tla's transcription of analyzeFile predicts other compositions than the real Genie on %d lines, e.g. %s"
                   % (len(drift), {k: c[k] for k in ("path", "bb", "size", "series", "comps")}), flush=True)
+        # ---------------- the diff pipeline with a failing task
+        r = vlib.run_tlc("DiffPipelineFault", "MC_DiffPipelineFault_ok.cfg", timeout=900, heap="8g")
+        if r.error or not r.ok:
+            raise vlib.Inconclusive("MC_DiffPipelineFault_ok: %s %s" % (r.violated, r.error))
+        vlib.log("[mc] DiffPipelineFault: %d distinct states; Returns, NilMeansAllDone, ErrOnlyIfFault, UpstreamErrorIsClean hold" % r.distinct)
+        r = vlib.run_tlc("DiffPipelineFault", "MC_DiffPipelineFault_leak.cfg", timeout=900, heap="8g")
+        if r.error or r.violated != "NeverStuck":
+            raise vlib.Inconclusive("MC_DiffPipelineFault_leak should violate NeverStuck, got %s %s" % (r.violated, r.error))
+        vlib.log("[mc] DiffPipelineFault: tasks left behind after a consumer failed - counterexample as expected (%d steps)" % len(r.trace or []))
+        n = 48 if tier == "quick" else 400
+        tp = os.path.join(d, "diffleak.ndjson")
+        vlib.run_driver(binary, ["diffleak", "-n", n, "-out", tp], timeout=3000)
+        cnt = vlib.count_lines(tp)
+        r = vlib.run_tlc("Trace_DiffLeak", "Trace_DiffLeak.cfg", data={"trace.ndjson": tp}, workers=4, timeout=3000, heap="4g")
+        if r.error or not r.ok or r.distinct < cnt:
+            raise vlib.Inconclusive("Trace_DiffLeak failed: %s\n%s" % (r.error or r.violated, r.out[-2000:]))
+        obs = vlib.parse_tagged(r.prints, "OBS")
+        odd = vlib.parse_tagged(r.prints, "ODD")
+        rows = list(vlib.read_ndjson(tp))
+        fired = sum(1 for c in rows if c["fired"] and c["fault"] in ("patch", "sig"))
+        vlib.log("[tv] diffleak: %d real WritePatch runs (%d with a consumer fault that fired); tasks left behind in %d; contrary to the model: %d" % (cnt, fired, len(obs), len(odd)))
+        if obs:
+            c = vlib.get_line(tp, obs[0][0])
+            print("OBSERVATION diffleak: %d of %d WritePatch runs whose patch or signature writer failed left goroutines behind after returning the error, e.g. %s"
+                  % (len(obs), fired, {k: c[k] for k in ("fault", "at", "algo", "err", "left", "where")}), flush=True)
+        if odd:
+            c = vlib.get_line(tp, odd[0][0])
+            print("NOTE: spec drift: DiffPipelineFault.tla says this cannot happen (%s): %s" % (odd[0][1], c), flush=True)
         print("RESULT growth %s: done (observations are not violations of a listed property)" % tier, flush=True)
         return rc
     finally:
